@@ -309,6 +309,11 @@ def run(ctx, res):
     D = Disc(F)
     builders = discover(F)
     res.floor("builders", len(builders), 18)
+    # the image is that of "the requested configuration", i.e. of what the public setters were given: the setter rules of
+    # C20 for every builder (a FIR entry must carry the sequence number given last for its SSRC, a list its insertion order)
+    from .c20 import setter_rules, builder_adts
+    _ns, _nc, _ = setter_rules(F, D, res, [a for a in builder_adts(F, D)])
+    res.floor("(setter, field) pairs checked", _ns, 80)
     per = {}
     total_rows = 0
     for B in builders:
